@@ -191,6 +191,55 @@ pub fn check_content(content: &Content, label: &str, rng: &mut Rng, depth: u8, r
     report.max("max_distinct_texts_per_content", texts.len() as u64);
 }
 
+/// Contents whose zero weights carry mixed signs: equal-looking zeros are different contents bit for
+/// bit, and the text must still depend on the contents only (compared across histories; the structure of
+/// such texts is not judged because "-0" is no weight literal of the notation).
+fn signed_zero_histories(seed: u64, report: &mut Report, stats: &mut TextStats) {
+    let mut rng = Rng::derive(seed, "c17-signed-zero", 0);
+    let neg = f32::from_bits(0x8000_0000);
+    for round in 0..60 {
+        let mut content = match round % 3 {
+            0 => content_from_cells(&row(0, 0), &[1, 1, 0, 2, 2, 0, 0, 1, 0, 0, 0, 0, 2], 0.0, neg),
+            1 => random_content(&mut rng, 0.5, 0.1),
+            _ => content_from_cells(&row(2, (round % 11) as u8), &vec![1; row(2, (round % 11) as u8).len()], 0.0, 0.0),
+        };
+        // flip the sign of the zero on a few combos, and zero a few weights
+        let keys: Vec<Pid> = content.keys().cloned().collect();
+        for _ in 0..(1 + keys.len() / 3) {
+            let k = keys[rng.usize_below(keys.len())];
+            content.insert(k, if rng.chance(1, 2) { neg } else { 0.0 });
+        }
+        let base = to_range(&content);
+        let text = match catch(|| base.to_string()) {
+            Ok(t) => t,
+            Err(p) => {
+                report.violate(format!("format-panic:signed-zero:{:016x}", content_hash(&content)), format!("to_string() panicked: {}", p), content_json("canonical", &content));
+                continue;
+            }
+        };
+        stats.observe(&text);
+        report.evaluations += 1;
+        report.count("signed_zero_contents", 1);
+        for (name, r) in histories(&content, &text, &mut rng, false) {
+            let same_bits = {
+                let got = read_range(&r);
+                got.len() == content.len() && got.iter().zip(content.iter()).all(|(a, b)| a.0 == b.0 && a.1.to_bits() == b.1.to_bits())
+            };
+            if !same_bits {
+                continue; // histories that rewrite weights (overwrites with random weights end on the right ones; others may not)
+            }
+            let t = catch(|| r.to_string()).unwrap_or_else(|p| format!("<panic {}>", p));
+            if t != text {
+                report.violate(
+                    format!("history:{}:signed-zero:{:016x}", name, content_hash(&content)),
+                    format!("bit-identical contents (with zeros of both signs) print differently after history '{}': '{}' vs '{}'", name, clip(&t), clip(&text)),
+                    content_json("canonical", &content).set("history", Json::str(name)),
+                );
+            }
+        }
+    }
+}
+
 pub fn run(ctx: &Ctx) -> Report {
     let thorough = ctx.tier == Tier::Thorough;
     let mut jobs = pattern_jobs(true, thorough, ctx.tier.pick(6000, 0), ctx.tier.pick(12, 78), ctx.tier.pick(400, 3000), ctx.seed);
@@ -224,6 +273,7 @@ pub fn run(ctx: &Ctx) -> Report {
         report.merge(r);
         stats.merge(&s);
     }
+    signed_zero_histories(ctx.seed, &mut report, &mut stats);
     stats.put(&mut report);
     report.exhaustive = Some(thorough);
     report.rule = "one execution = to_string() of a real HandRange whose token sequence is read back with the strict notation reader and compared with R4: rank-pair tokens are exactly the maximal equal-weight runs in canonical order (pockets from aces down, then per high card suited then offsuit), then only single combos equal to the leftovers; for a share of the contents the same contents are rebuilt along up to 13 construction histories and must print identically; distinct = distinct (generator, pattern index, weights)".into();
